@@ -23,6 +23,9 @@ int main(int argc, char** argv) {
     for (int k = 0; k < no; ++k) {
       Path64 p; int n = (int)g.range(2, 6);
       for (int j = 0; j < n; ++j) p.emplace_back(g.range(-in.R, in.R), g.range(-in.R, in.R));
+      // exactly horizontal segments (the sweep treats them separately): at an end of the path (35%), in its interior (15%)
+      if (g.chance(35)) { if (g.coin()) p[1].y = p[0].y; else p[n - 2].y = p[n - 1].y; stat("open.horizontal_end_segment"); }
+      if (n >= 4 && g.chance(15)) { int j = (int)g.range(1, n - 3); p[j + 1].y = p[j].y; stat("open.horizontal_inner_segment"); }
       opn.push_back(p);
     }
     bool closed_subj = g.chance(60);
